@@ -5,6 +5,8 @@ CONSTANTS
   HasEnc = FALSE
   MaxChunk = 3
   MaxPolls = 6
+  MaxEmpty = 1
+  EmptyIsData = TRUE
   Latch = TRUE
 CONSTRAINT GBound
 INVARIANT Export
